@@ -201,7 +201,8 @@ def h_device(shape):
         s = dev.to_abstract_repr()  # real schema validation inside
         dev2 = type(dev).from_abstract_repr(s)
         obs = [("k2:device_type", type(dev2) is type(dev))]
-        obs.append(("k2:device_fieldwise_equal", AND(*fields_equal(dev, dev2))))
+        for f in dataclasses.fields(dev):
+            obs.append(("k2:device_field:" + f.name, AND(*fields_equal(getattr(dev, f.name), getattr(dev2, f.name)))))
         obs.append(("k2:device_channel_ids", tuple(dev2.channel_ids) == tuple(dev.channel_ids) and set(dev2.dmm_channels) == set(dev.dmm_channels)))
         # aliasing: two decodes are independent objects
         dev3 = type(dev).from_abstract_repr(s)
@@ -242,6 +243,10 @@ def h_register(shape):
             o2 = RegisterLayout.from_abstract_repr(other.to_abstract_repr())
             lay3 = RegisterLayout.from_abstract_repr(s)
             obs.append(("k3:layout_decode_independent", o2.slug == "other_slug" and lay3.slug == lay.slug and lay2.slug == lay.slug and o2 is not lay2))
+            # == / static_hash are SHA-256 over bytes (outside the solver): one concrete layout whose rounding leaves a -0.0
+            cl = RegisterLayout([[-1e-9, 0.0] + [0.0] * (dims - 2), [5.0, -2e-8] + [1.0] * (dims - 2), [0.0, 5.0] + [2.0] * (dims - 2)], slug=shape.get("slug"))
+            cl2 = RegisterLayout.from_abstract_repr(cl.to_abstract_repr())
+            obs.append(("k2:layout_equal_and_same_hash_concrete", cl2 == cl and cl2.static_hash() == cl.static_hash()))
         elif kind == "register":
             cls = Register3D if dims == 3 else Register
             reg = cls({"q%d" % i: P[i] for i in range(n)})
@@ -298,7 +303,7 @@ def kernels(tier):
     for sub in ([["temperature"], ["amp_sigma"], ["state_prep_error"], ["p_false_pos"], ["relaxation_rate", "amp_sigma"]]):
         ks.append(("noise", dict(params=sub, runs=False)))
     dev_opts = [[], ["mod"], ["mod", "pjt", "minavg"], ["eom"], ["eom", "eombuf", "eom2", "eomopt"], ["dmm"], ["dmm", "total", "mod"],
-                ["maxt", "seqdur", "runs", "filling"], ["atoms", "radius", "reuse", "propdir"]]
+                ["maxt", "seqdur", "runs", "filling"], ["atoms", "radius", "reuse", "propdir"], ["eom", "eomopt"], ["eom", "eom2"]]
     for opt in dev_opts:
         ks.append(("device", dict(opt=opt, virtual=True)))
     for opt in ([], ["eom", "eombuf"], ["dmm", "total", "seqdur", "runs", "maxt", "mod"]):
